@@ -42,6 +42,9 @@ MAX_PROBE_BYTES = 65535
 def fault_atoms():
     return [
         [["net", "refuse", 0.0]],
+        # a connection attempt can fail with other OSErrors than "refused"
+        [["net", "unreachable", 0.0]], [["net", "timeout", 1.0]], [["net", "gaierror", 0.0]],
+        [["fin"], ["net", "timeout", 0.5], ["net", "unreachable", 0.0]],
         [["net", "accept", 0.5]],
         [["net", "accept", 2.0]],
         [["net", "accept", 2.0 + EPS]],
@@ -80,6 +83,7 @@ GAPS = [[], [["turns", 1]], [["turns", 2]], [["adv", EPS]], [["adv", 2.0]], [["a
 
 API_ATOMS = [
     [("net", "refuse", 0.0), ("fin",)],
+    [("net", "timeout", 1.0), ("net", "gaierror", 0.0), ("net", "unreachable", 0.0), ("rst",)],
     [("net", "accept", 0.5), ("rst",)],
     [("net", "accept", 2.0 + EPS), ("fin",)],
     [("fin",)], [("rst",)], [("garbage",)], [("badcrc",)], [("trunc",)],
